@@ -75,6 +75,11 @@ type xdsClient struct {
 	answered map[string]map[string]struct{}
 	inst     *wisInstance
 
+	// transport credentials of the simulated connection (C11): tls = the stream carries TLS peer info;
+	// identities = what the simulator's authenticator reports for it (nil = authentication fails)
+	tls        bool
+	identities []string
+
 	// behaviour knobs
 	nackNext map[string]bool
 	// derive dependent subscriptions from root contents (EDS from CDS, RDS from LDS)
